@@ -138,3 +138,7 @@ def run(ctx: Ctx):
         ctx.lift_lemmas([("L_Cross", "Cofactor", True), ("L_Cross", "Falsified", False)])
     ctx.sample(recs[0]["r"])
     ctx.sample(recs[len(recs) // 2]["r"])
+    # ---- code -> spec: recorded calls on larger coordinates, validated by TLC against Trace_Ops.tla
+    from ..optrace import run_optrace
+
+    run_optrace(ctx, ['apply_point', 'apply_hyper', 'on_hyper'])
